@@ -279,8 +279,8 @@ def build(repo, si, off, mode_name):
     return i, ifp, outs
 
 
-def decide(repo, si, off, mode_name, N, timeout_ms=600000):
-    out = {"si": si, "off": off, "mode": mode_name, "N": N, "queries": 0, "solver_time_s": 0.0}
+def decide(repo, si, off, mode_name, N, timeout_ms=900000, lo=0):
+    out = {"si": si, "off": off, "mode": mode_name, "N": N, "lo": lo, "queries": 0, "solver_time_s": 0.0}
     t0 = _time.time()
     try:
         i, ifp, outs = build(repo, si, off, mode_name)
@@ -306,7 +306,7 @@ def decide(repo, si, off, mode_name, N, timeout_ms=600000):
         bad.append(z3.And(pc, z3.Not(ok)))
     s = z3.Solver()
     s.set("timeout", timeout_ms)
-    s.add(z3.ULE(i, z3.BitVecVal(N, 32)), z3.Or(bad))
+    s.add(z3.ULE(i, z3.BitVecVal(N, 32)), z3.UGE(i, z3.BitVecVal(lo, 32)), z3.Or(bad))
     q0 = _time.time()
     r = s.check()
     out["queries"] = 1
